@@ -165,3 +165,11 @@ func CallPHiddenPtr(x interface{}) int {
 	h, _ := x.(*hidden)
 	return PHiddenPtr(h)
 }
+
+// RPair / PPair: two results / parameters, so that values are converted by position.
+//
+//go:noinline
+func RPair(int) ([]byte, error) { return origBytes, origErr }
+
+//go:noinline
+func PPair([]byte, error) int { return -1 }
